@@ -1,4 +1,5 @@
-import RzilVerif.Model.Compile
+import RzilVerif.Model.CompileH
+import RzilVerif.Model.CSemH
 import RzilVerif.Model.DriverText
 /-
   Driver request `(sem …)`: tie of the lowering model to the real output (tree equality) and the
@@ -148,13 +149,23 @@ def cfgOfString : String → Cfg
   | _ => Cfg.asCode
 
 /-- `(sem cfgname (stmt…) "real text" nstates seed)` -/
+def csubOfSexp : Sexp → Option (String × CSub)
+  | .list [.atom "csub", .str name, .list params, ret, .list body] => do
+      let ps ← params.mapM (fun p => match p with
+        | .list [.str n, t] => do let t ← ctOfSexp t; pure (n, t)
+        | _ => none)
+      let ret ← ctOfSexp ret
+      let body ← CStmt.ofSexps body
+      pure (name, { params := ps, ret := ret, body := body })
+  | _ => none
+
 def handleSem (st : DState) : List Sexp → Option Sexp
-  | [.atom "sem", .atom cfgName, .list stmts, .str text, n, seed] => do
+  | [.atom "sem", .atom cfgName, .list stmts, .str text, n, seed, .list csubsx] => do
+      let csubs ← csubsx.mapM csubOfSexp
       let n ← n.asNat?
       let seed ← seed.asNat?
       let prog ← CStmt.ofSexps stmts
-      let _ := st
-      let modelTree : Except String ILEffect := compileProg (cfgOfString cfgName) prog
+      let modelTree : Except String ILEffect := compileProgH (cfgOfString cfgName) prog
       let modelStr := match modelTree with
         | .ok e => (canonTerm e.toTerm).render
         | .error m => "ERROR " ++ m
@@ -171,10 +182,10 @@ def handleSem (st : DState) : List Sexp → Option Sexp
           let (ran, skipped, fail) := acc
           if fail.isSome then acc else
           let σ := mkState (seed * 1000 + i)
-          match execCs macroSem 400 prog σ with
+          match execCHs macroSem csubs 400 prog σ with
           | .error _ => (ran, skipped + 1, none)          -- C side undefined / out of fuel: state not judged
           | .ok σc =>
-            match execIL macroSem [] 2000 realEff σ with
+            match execIL macroSem st.subBodies 4000 realEff σ with
             | .error .fuel => (ran, skipped + 1, none)
             | .error e => (ran + 1, skipped, some s!"state {seed * 1000 + i}: IL gets stuck ({stuckStr e}) where C is defined")
             | .ok σi =>
